@@ -7,7 +7,7 @@ from spec import hex_of
 from props.C03 import pred_pos  # noqa: F401
 
 OBLIGATION_MODULES = ["PyModeS.Properties.C05"]
-TIE_MODULES = ['PyModeS.Tie.CprGlobal', 'PyModeS.Tie.Adsb']
+TIE_MODULES = ['PyModeS.Tie.CprGlobal', 'PyModeS.Tie.Adsb', 'PyModeS.Tie.C03Gen']
 MAIN_THEOREM = "PyModeS.C05.surface_global / hemisphere_choice / lon_quadrant_choice"
 RULE = ("surface positions dense near lat 0, lon 0/+-90/+-180 and NL transitions, random elsewhere x pair displacement <= 0.2 NM x receiver "
         "within 45 NM in 16 directions x both time orders; non-trivial = a position (not None) expected")
